@@ -429,3 +429,52 @@ def inline_new_constants(tree: ast.Module, modname: str) -> int:
     if count:
         ast.fix_missing_locations(tree)
     return count
+
+
+# --------------------------------------------------------------------------- any()/all() over a generator, new in a function
+def anyall_to_loops(tree: ast.Module, modname: str) -> int:
+    """`return any(e for t in it if c)` is `for t in it: if c: if e: return True` + `return False` (and dually for all()).
+    Converted only in functions whose reference version did not call any()/all() - the product of a `loop -> any()`
+    refactoring; the explicit loop is what the inliner and the path rules can follow."""
+    from .inline import all_function_quals
+    from .relocate import shapes
+    ref = shapes().get(modname)
+    if not ref:
+        return 0
+    count = 0
+    for q, (fn, cls, outer) in all_function_quals(tree).items():
+        r = ref.get(q)
+        if r is None:
+            continue
+        for name in ("any", "all"):
+            if f"{name}()" in r["bag"]:
+                continue
+            for parent in ast.walk(fn):
+                for fld in ("body", "orelse", "finalbody"):
+                    b = getattr(parent, fld, None)
+                    if not (isinstance(b, list) and b and isinstance(b[0], ast.stmt)):
+                        continue
+                    for i, st in enumerate(b):
+                        v = st.value if isinstance(st, ast.Return) else None
+                        if not (isinstance(v, ast.Call) and isinstance(v.func, ast.Name) and v.func.id == name and len(v.args) == 1 and not v.keywords
+                                and isinstance(v.args[0], ast.GeneratorExp) and len(v.args[0].generators) == 1 and not v.args[0].generators[0].is_async):
+                            continue
+                        g = v.args[0]
+                        c = g.generators[0]
+                        hit = ast.Constant(value=(name == "any"))
+                        test = g.elt if name == "any" else ast.UnaryOp(op=ast.Not(), operand=g.elt)
+                        inner: List[ast.stmt] = [ast.If(test=test, body=[ast.Return(value=hit)], orelse=[])]
+                        for cond in reversed(c.ifs):
+                            inner = [ast.If(test=cond, body=inner, orelse=[])]
+                        tgt = copy.deepcopy(c.target)
+                        for t in ast.walk(tgt):
+                            if isinstance(t, (ast.Name, ast.Tuple, ast.List)):
+                                t.ctx = ast.Store()
+                        loop = ast.For(target=tgt, iter=c.iter, body=inner, orelse=[], type_comment=None)
+                        new = [ast.copy_location(loop, st), ast.copy_location(ast.Return(value=ast.Constant(value=(name != "any"))), st)]
+                        b[i:i + 1] = new
+                        count += 1
+                        break
+    if count:
+        ast.fix_missing_locations(tree)
+    return count
